@@ -344,10 +344,11 @@ def placement(ctx, facts, cfg):
         for e in ev.events:
             if e['kind'] != 'for':
                 continue
-            rng = core.is_range_struct(e['iter'])
-            if rng is None or rng[0] is None or rng[1] is None or e['pat'].get('k') != 'bind':
+            cl = core.counted_loop(e['iter'], e['pat'])
+            if cl is None:
                 continue
-            ivar = e['pat']['name']
+            ivar = cl[0]
+            rng = (cl[1] if cl[1] is not None else {'k': 'lit', 'int': 0, 'ty': 'usize'}, cl[2])
             uses_recv = core.hir_find(e['body'], lambda m: m.get('k') == 'index' and hcanon(m['base']) == ('local', recv) and hcanon(m['idx']) == ('local', ivar))
             if not uses_recv:
                 continue
